@@ -69,6 +69,7 @@ def evaluate(ctx, rng, tier, focus, budget, broken):
     stats = {}
     nops = 0
     nclass = {"full_must": 0, "full_mustnot": 0, "over_must": 0, "over_mustnot": 0}
+    nprims = [0]
     for (loops, lat, lng, radius, res, kind) in _cases(rng, tier):
         ps = gen.poly_str(loops)
         cand = candidates(ctx, lat, lng, radius, res, None)
@@ -138,6 +139,29 @@ def evaluate(ctx, rng, tier, focus, budget, broken):
                 if h in over:
                     viol_.append(viol("OVERLAPPING returned a cell disjoint from the polygon", ops[2], "not returned", gen.hx(h),
                                       key=f"over-never:{kind}:{res}:{gen.hx(h)}"))
+        # decision logic: the library's own primitive predicates for each candidate cell, combined by the
+        # Lean model `acceptTarget` (the subject of the nesting theorems), must reproduce the membership of the
+        # cell in the library's result for all four modes
+        if ctx.prep.model:
+            sample = list(G.keys())
+            rng.shuffle(sample)
+            sample = sample[:150]
+            pops = [f"polyprims {gen.hx(h)} {ps}" for h in sample]
+            pout = ctx.c(pops, tag="prims")
+            mops, mmeta = [], []
+            for h, a in zip(sample, pout):
+                if ok(a):
+                    for m in (0, 1, 2, 3):
+                        mops.append(f"polyaccept {m} " + " ".join(a.split()[1:9])); mmeta.append((h, m, a))
+            mout = ctx.m(mops, tag="accept") if mops else []
+            nprims[0] += len(mops)
+            for (h, m, a), b in zip(mmeta, mout):
+                member = h in sets[m]
+                if b != ("ok 1" if member else "ok 0"):
+                    viol_.append(viol("membership in the result differs from the per-mode decision formula applied to the "
+                                      "library's own primitive predicates (decision logic / coarse pruning changed)",
+                                      [ops[m], f"polyprims {gen.hx(h)} <polygon>"], f"member={b}", f"member={member} prims={a}",
+                                      key=f"decision:{m}:{kind}:{res}:{gen.hx(h)}"))
         # capacity below the count -> E_MEMORY_BOUNDS ; invalid flags -> E_OPTION_INVALID
         ops2, exp2 = [], []
         for m in (0, 2):
@@ -153,7 +177,8 @@ def evaluate(ctx, rng, tier, focus, budget, broken):
             break
     return {"evaluations": nops, "violations": viol_[:20],
             "distinct": [f"{k}:{i}" for k, n in stats.items() for i in range(n)],
-            "coverage": {"polygons": sum(stats.values()), "by_kind": stats, "cell_classifications": nclass},
+            "coverage": {"polygons": sum(stats.values()), "by_kind": stats, "cell_classifications": nclass,
+                         "decision_formula_evaluations": nprims[0]},
             "samples": [{"op": "polyfillx <res> <mode> 0 <polygon>", "note": "see coverage"}]}
 
 
